@@ -207,6 +207,9 @@ impl<'a, 'tcx> W<'a, 'tcx> {
             LitKind::Char(c) => j.set("v", J::s(c.to_string())),
             LitKind::Float(s, _) => j.set("v", J::s(s.as_str())),
             LitKind::Byte(b) => j.set("v", J::Num(b as i64)),
+            LitKind::ByteStr(ref bytes, _) => {
+                j.set("v", J::Arr(bytes.as_byte_str().iter().map(|b| J::Num(*b as i64)).collect()))
+            }
             _ => j.set("v", J::Null),
         }
         j.set(
@@ -218,6 +221,7 @@ impl<'a, 'tcx> W<'a, 'tcx> {
                 LitKind::Char(..) => "char",
                 LitKind::Float(..) => "float",
                 LitKind::Byte(..) => "byte",
+                LitKind::ByteStr(..) => "bytes",
                 _ => "other",
             }),
         );
